@@ -523,7 +523,7 @@ pub fn run(run: &Run) {
     }
 
     // ---- A. round trips through the four feeds
-    let n = run.opts.size(2_500, 200_000);
+    let n = run.opts.size(25_000, 1_000_000);
     run.parallel("round-trip", n, |i, l| {
         let mut r = Rng::derive(seed, "c14-rt", i);
         let eng = &envs[(i as usize) % envs.len()];
@@ -557,7 +557,7 @@ pub fn run(run: &Run) {
     });
 
     // ---- B. mutated documents against the acceptance model
-    let n = run.opts.size(10_000, 800_000);
+    let n = run.opts.size(100_000, 4_000_000);
     run.parallel("mutants", n, |i, l| {
         let mut r = Rng::derive(seed, "c14-mut", i);
         let eng = &envs[(i as usize) % envs.len()];
@@ -700,7 +700,7 @@ pub fn run(run: &Run) {
     });
 
     // ---- C. the C entry points accept the same documents
-    let n = run.opts.size(800, 50_000);
+    let n = run.opts.size(8_000, 200_000);
     run.parallel("ffi", n, |i, l| {
         let mut r = Rng::derive(seed, "c14-ffi", i);
         let env = rich_env((i % 4) as usize);
